@@ -157,30 +157,30 @@ theorem C10_step_state_eq (c : Core F P Err) (wgs : Nat) (h : Heap F P) (tr : Tr
   unfold step
   by_cases hh : needsHop h tr.src tr.dst = true
   · simp only [hh, if_true]
-    by_cases hn : needsHop h tr.src wgs = true
-    · simp [hn]
-    · simp only [hn, Bool.false_eq_true, if_false]
-      have e1 := stepNoHop_settled c h tr.src wgs x y hs hw
-      cases hres : (stepNoHop c h tr.src wgs x y).2 with
-      | ok a b =>
-        simp only [e1]
-        exact ⟨stepNoHop_settled c h wgs tr.dst a b hw hd, trivial⟩
-      | err e => exact ⟨e1, rfl⟩
-      | panic f => exact ⟨e1, rfl⟩
+    have e1 := stepNoHop_settled c h tr.src wgs x y FOps.zero hs hw
+    cases hres : (stepNoHop c h tr.src wgs x y FOps.zero).2 with
+    | ok a b z =>
+      simp only [e1]
+      exact ⟨stepNoHop_settled c h wgs tr.dst a b z hw hd, trivial⟩
+    | err e => exact ⟨e1, rfl⟩
+    | panic f => exact ⟨e1, rfl⟩
   · simp only [hh, Bool.false_eq_true, if_false]
-    exact ⟨stepNoHop_settled c h tr.src tr.dst x y hs hd, trivial⟩
+    exact ⟨stepNoHop_settled c h tr.src tr.dst x y FOps.zero hs hd, trivial⟩
 
 /-- after a constructor has run, its cell is settled (for `CoreOK` internals) -/
 theorem settled_after_init (c : Core F P Err) (hc : CoreOK c) (h : Heap F P) (i : Nat) :
     Settled c (initAt c h i).1 i := by
   simp [Settled, initAt_fst, Heap.set, inited, hc (h i).p]
 
-/-- What fix 788adbd repaired, on the model of the snapshot's closure: after one successful call
-through a datum-hop transformer its captured source is the WGS84 cell. -/
-theorem snapshot_source_overwritten (c : Core F P Err) (wgs : Nat) (h : Heap F P) (tr : Tr) (x y a b : F)
+/-- What fixes 788adbd and 9f83d68 repaired, on the model of the snapshot's closure: after one
+successful call through a datum-hop transformer its captured source is the WGS84 cell (so the next
+call starts from WGS84), and the second leg started from height 0 instead of the first leg's height. -/
+theorem snapshot_source_overwritten (c : Core F P Err) (wgs : Nat) (h : Heap F P) (tr : Tr) (x y a b z : F)
     (hh : needsHop h tr.src tr.dst = true) (hn : needsHop h tr.src wgs = false)
-    (h1 : (stepNoHop c h tr.src wgs x y).2 = .ok a b) :
-    (stepSnapshot c wgs h tr x y).2.1.src = wgs ∧ (step c wgs h tr x y).2.1.src = tr.src := by
+    (h1 : (stepNoHop c h tr.src wgs x y FOps.zero).2 = .ok a b z) :
+    (stepSnapshot c wgs h tr x y).2.1.src = wgs ∧ (step c wgs h tr x y).2.1.src = tr.src ∧
+    (stepSnapshot c wgs h tr x y).2.2 = dropZ (stepNoHop c (stepNoHop c h tr.src wgs x y FOps.zero).1 wgs tr.dst a b FOps.zero).2 ∧
+    (step c wgs h tr x y).2.2 = dropZ (stepNoHop c (stepNoHop c h tr.src wgs x y FOps.zero).1 wgs tr.dst a b z).2 := by
   simp [stepSnapshot, step, hh, hn, h1]
 
 /-! ### adjust_axis -/
@@ -251,13 +251,11 @@ theorem snapshot_axis_index_fault (ae : Err) (axis : List Char) (x y : F) :
 
 /-! ### the closure never panics -/
 
-/-- well-formed heap: three-letter axis strings (as `projString`/`DeriveConstants` produce) and the
-registry's WGS84 cell is what its name says -/
-def WF (h : Heap F P) (wgs : Nat) : Prop :=
-  (∀ i, (h i).axis.length = 3) ∧ (h wgs).wgsCode = true ∧ (h wgs).dtype = 4
+/-- well-formed heap: three-letter axis strings (as `projString`/`DeriveConstants` produce) -/
+def WF (h : Heap F P) : Prop := ∀ i, (h i).axis.length = 3
 
-theorem body_no_panic (c : Core F P Err) (s d : Nat) (S D : SR F P) (x y : F)
-    (hS : S.axis.length = 3) (hD : D.axis.length = 3) (f : Fault) : body c s d S D x y ≠ .panic f := by
+theorem body_no_panic (c : Core F P Err) (s d : Nat) (S D : SR F P) (x y z : F)
+    (hS : S.axis.length = 3) (hD : D.axis.length = 3) (f : Fault) : body c s d S D x y z ≠ .panic f := by
   have hs := (C10_no_index_fault c.axisErr S.axis false x y hS).2.1
   have hd := fun (x y : F) => (C10_no_index_fault c.axisErr D.axis true x y hD).2.1
   unfold body
@@ -283,15 +281,29 @@ theorem body_no_panic (c : Core F P Err) (s d : Nat) (S D : SR F P) (x y : F)
             | panic g => exact absurd h2 (hd _ _ g)
           | ok q => obtain ⟨a, b⟩ := q; simp
 
-theorem stepNoHop_no_panic (c : Core F P Err) (h : Heap F P) (s d : Nat) (x y : F)
-    (hax : ∀ i, (h i).axis.length = 3) (f : Fault) : (stepNoHop c h s d x y).2 ≠ .panic f := by
-  have ax1 : ∀ i j, ((initAt c h i).1 j).axis.length = 3 := by
-    intro i j; simp only [initAt_fst, Heap.set, inited]; by_cases hj : j = i <;> simp [hj, hax]
-  have ax2 : ∀ i k j, ((initAt c (initAt c h i).1 k).1 j).axis.length = 3 := by
-    intro i k j; simp only [initAt_fst, Heap.set, inited]
-    by_cases hj : j = k <;> simp [hj, ax1]
-    · have := ax1 i k; simpa [initAt_fst, Heap.set, inited] using this
-    · have := ax1 i j; simpa [initAt_fst, Heap.set, inited] using this
+theorem initAt_axis (c : Core F P Err) (h : Heap F P) (hax : ∀ i, (h i).axis.length = 3) (i j : Nat) :
+    ((initAt c h i).1 j).axis.length = 3 := by
+  simp only [initAt_fst, Heap.set, inited]; by_cases hj : j = i <;> simp [hj, hax]
+
+theorem stepNoHop_axis (c : Core F P Err) (h : Heap F P) (s d : Nat) (x y z : F)
+    (hax : ∀ i, (h i).axis.length = 3) : ∀ i, ((stepNoHop c h s d x y z).1 i).axis.length = 3 := by
+  have ax1 := initAt_axis c h hax s
+  have ax2 := initAt_axis c _ ax1 d
+  intro i
+  unfold stepNoHop
+  simp only []
+  cases (initAt c h s).2 with
+  | some e => exact ax1 i
+  | none =>
+    simp only []
+    cases (initAt c (initAt c h s).1 d).2 with
+    | some e => exact ax2 i
+    | none => exact ax2 i
+
+theorem stepNoHop_no_panic (c : Core F P Err) (h : Heap F P) (s d : Nat) (x y z : F)
+    (hax : ∀ i, (h i).axis.length = 3) (f : Fault) : (stepNoHop c h s d x y z).2 ≠ .panic f := by
+  have ax1 := initAt_axis c h hax s
+  have ax2 := initAt_axis c _ ax1 d
   unfold stepNoHop
   simp only []
   cases (initAt c h s).2 with
@@ -300,47 +312,28 @@ theorem stepNoHop_no_panic (c : Core F P Err) (h : Heap F P) (s d : Nat) (x y : 
     simp only []
     cases (initAt c (initAt c h s).1 d).2 with
     | some e => simp
-    | none => exact body_no_panic c s d _ _ x y (ax2 s d s) (ax2 s d d) f
+    | none => exact body_no_panic c s d _ _ x y z (ax2 s) (ax2 d) f
 
-theorem stepNoHop_axis (c : Core F P Err) (h : Heap F P) (s d : Nat) (x y : F)
-    (hax : ∀ i, (h i).axis.length = 3) : ∀ i, ((stepNoHop c h s d x y).1 i).axis.length = 3 := by
-  have ax1 : ∀ i j, ((initAt c h i).1 j).axis.length = 3 := by
-    intro i j; simp only [initAt_fst, Heap.set, inited]; by_cases hj : j = i <;> simp [hj, hax]
-  have ax2 : ∀ i k j, ((initAt c (initAt c h i).1 k).1 j).axis.length = 3 := by
-    intro i k j; simp only [initAt_fst, Heap.set, inited]
-    by_cases hj : j = k <;> simp [hj, ax1]
-    · have := ax1 i k; simpa [initAt_fst, Heap.set, inited] using this
-    · have := ax1 i j; simpa [initAt_fst, Heap.set, inited] using this
-  intro i
-  unfold stepNoHop
-  simp only []
-  cases (initAt c h s).2 with
-  | some e => exact ax1 s i
-  | none =>
-    simp only []
-    cases (initAt c (initAt c h s).1 d).2 with
-    | some e => exact ax2 s d i
-    | none => exact ax2 s d i
+theorem dropZ_panic (r : Res3 F Err) (f : Fault) (h : r ≠ .panic f) : dropZ r ≠ .panic f := by
+  cases r <;> simp_all [dropZ]
 
 /-- **C10_no_panic** (the transformer side of "never panics"; needs the repaired `adjust_axis`): on a
 well-formed heap no call of any transformer panics — no index fault for any axis order of source or
-dest, no runaway recursion through the WGS84 hop. -/
-theorem C10_no_panic (c : Core F P Err) (wgs : Nat) (h : Heap F P) (tr : Tr) (x y : F) (hw : WF h wgs)
+dest, and (the first leg being `transform3` itself) no recursion through the WGS84 hop. -/
+theorem C10_no_panic (c : Core F P Err) (wgs : Nat) (h : Heap F P) (tr : Tr) (x y : F) (hw : WF h)
     (f : Fault) : (step c wgs h tr x y).2.2 ≠ .panic f := by
-  obtain ⟨hax, hc, hd⟩ := hw
-  have hn : needsHop h tr.src wgs = false := by simp [needsHop, notWGS, hc, hd]
   unfold step
   by_cases hh : needsHop h tr.src tr.dst = true
-  · simp only [hh, if_true, hn, Bool.false_eq_true, if_false]
-    have n1 := stepNoHop_no_panic c h tr.src wgs x y hax
-    cases hres : (stepNoHop c h tr.src wgs x y).2 with
-    | ok a b =>
+  · simp only [hh, if_true]
+    have n1 := stepNoHop_no_panic c h tr.src wgs x y FOps.zero hw
+    cases hres : (stepNoHop c h tr.src wgs x y FOps.zero).2 with
+    | ok a b z =>
       simp only []
-      exact stepNoHop_no_panic c _ wgs tr.dst a b (stepNoHop_axis c h tr.src wgs x y hax) f
-    | err e => simp
+      exact dropZ_panic _ f (stepNoHop_no_panic c _ wgs tr.dst a b z (stepNoHop_axis c h tr.src wgs x y FOps.zero hw) f)
+    | err e => simp [dropZ]
     | panic g => exact absurd hres (n1 g)
   · simp only [hh, Bool.false_eq_true, if_false]
-    exact stepNoHop_no_panic c h tr.src tr.dst x y hax f
+    exact dropZ_panic _ f (stepNoHop_no_panic c h tr.src tr.dst x y FOps.zero hw f)
 
 /-! ### non-vacuity: a concrete instance (also the witness that the snapshot's closure was not pure) -/
 
@@ -355,13 +348,14 @@ instance : FOps Int where
   isNaN _ := false
   deg2rad := 1
   r2d := 1
+  zero := 0
 
-/-- identity projections; the datum step between cells `i` and `j` adds `10 i + j` to x -/
+/-- identity projections; the datum step between cells `i` and `j` adds `10 i + j` to x and 1 to z -/
 def core : Core Int Bool String where
   init _ := (true, none)
   inv _ a b := .ok (a, b)
   fwd _ a b := .ok (a, b)
-  dt i j a b := .ok (a + 10 * i + j, b)
+  dt i j a b z := .ok (a + 10 * i + j, b + z, z + 1)
   axisErr := "axis"
 
 /-- cell 0, 1: 3-parameter datums; cell 2: the WGS84 registry entry -/
@@ -372,14 +366,14 @@ def heap : Heap Int Bool := fun i =>
 def pool : Nat → Tr := fun _ => ⟨0, 1⟩
 
 example : CoreOK core := fun _ => rfl
-example : WF heap 2 := ⟨fun _ => rfl, rfl, rfl⟩
+example : WF heap := fun _ => rfl
 example : needsHop heap 0 1 = true := by decide
 
 /-- fixed code: the same call twice gives the same answer … -/
-example : (runHist core 2 { heap := heap, pool := pool } [(0, 5, 7), (0, 5, 7)]).2 = [.ok 28 7, .ok 28 7] := by
+example : (runHist core 2 { heap := heap, pool := pool } [(0, 5, 7), (0, 5, 7)]).2 = [.ok 28 8, .ok 28 8] := by
   decide
 
-/-- … the snapshot's closure answered from WGS84 the second time. -/
+/-- … the snapshot's closure dropped the height (7, not 8) and answered from WGS84 the second time. -/
 example :
     let r1 := stepSnapshot core 2 heap (pool 0) 5 7
     let r2 := stepSnapshot core 2 r1.1 r1.2.1 5 7
